@@ -49,10 +49,27 @@ def abstract_part(out):
             out.inconc(f'abstract selection counterexample could not be replayed: {desc}')
         else:
             out.inconc(f'abstract selection counterexample {c["what"]} {c["model"]} did not reproduce natively')
+    # ID positions run through serde's Content buffer (untagged helper): neither engine can execute them, so the "integer or
+    # string ID" clause of the property is only sampled natively here (same matrix as C16: nesting, flatten / variant
+    # positions, integer boundary values)
+    import C16
+    id_samples = []
+    for ql in ([], ['R'], ['R', 'L', 'R']):
+        ok, desc = C16.confirm(C, ql)
+        replayed += 1
+        id_samples.append(dict(type_expression=ql, ok=ok))
+        if not ok:
+            out.violation('native:id-payload', desc, dict(kind='native-id', qualifiers=ql))
+            break
+    else:
+        ok, desc = C16.confirm_positions(C)
+        replayed += 1
+        if not ok:
+            out.violation('native:id-payload', desc, dict(kind='native-id', positions=True))
     for w in R.inconclusive:
         out.inconc(w)
     ev = R.evidence()
-    ev.update(paths=R.paths, obligations=R.obligations, discharged=R.discharged, replayed=replayed, samples=R.samples[:3])
+    ev.update(paths=R.paths, obligations=R.obligations, discharged=R.discharged, replayed=replayed, samples=R.samples[:3], native_id_samples=id_samples)
     return ev
 
 
@@ -73,6 +90,11 @@ def replay(path):
         import consumer
         import abstract_common as AC
         C = consumer.Consumer(vc.scratch(PROP + 'r'))
+        if p.get('kind') == 'native-id':
+            import C16
+            ok, desc = C16.confirm_positions(C) if p.get('positions') else C16.confirm(C, p['qualifiers'])
+            print(desc)
+            return 0 if ok else 1
         ok, desc, _ = AC.confirm_object(C, p['model']) if p['model'].get('parent') == 'object' else AC.confirm(C, p['model'])
         print(desc)
         return 1 if ok is False else 0
